@@ -133,6 +133,71 @@ theorem llWei_stationary_is_max (ls : List ℝ) (w tau : ℝ) (ht : 0 < tau) (hw
   rw [hw, hτ] at this
   simpa using this
 
+/-- strict version: away from the tangency point the log-density is strictly below the tangent plane -/
+theorem weiTerm_below_tangent_strict (w tau l w' tau' : ℝ) (ht : 0 < tau) (ht' : 0 < tau') (hne : tau' ≠ tau ∨ w' ≠ w) :
+    weiTerm w' tau' l < weiTerm w tau l + (1 / tau + l - l * Real.exp (tau * (w + l))) * (tau' - tau)
+      + (1 - Real.exp (tau * (w + l))) * (tau' * w' - tau * w) := by
+  unfold weiTerm
+  have hlog : Real.log tau' ≤ Real.log tau + (tau' - tau) / tau := by
+    have h := Real.log_le_sub_one_of_pos (div_pos ht' ht)
+    rw [Real.log_div (ne_of_gt ht') (ne_of_gt ht)] at h
+    have : tau' / tau - 1 = (tau' - tau) / tau := by field_simp
+    linarith
+  have hpos := Real.exp_pos (tau * (w + l))
+  have hsplit : Real.exp (tau' * (w' + l)) = Real.exp (tau * (w + l)) * Real.exp (tau' * (w' + l) - tau * (w + l)) := by
+    rw [← Real.exp_add]; congr 1; ring
+  have hexp : Real.exp (tau * (w + l)) * (1 + (tau' * (w' + l) - tau * (w + l))) ≤ Real.exp (tau' * (w' + l)) := by
+    have h := Real.add_one_le_exp (tau' * (w' + l) - tau * (w + l))
+    rw [hsplit]; exact mul_le_mul_of_nonneg_left (by linarith) hpos.le
+  have e : (tau' - tau) / tau = (1 / tau) * (tau' - tau) := by ring
+  by_cases hτ : tau' = tau
+  · -- then w' ≠ w: the exponential inequality is strict
+    have hw : w' ≠ w := by rcases hne with h | h; exact absurd hτ h; exact h
+    have hd : tau' * (w' + l) - tau * (w + l) ≠ 0 := by
+      rw [hτ]; intro h0
+      have : tau * (w' - w) = 0 := by linarith
+      rcases mul_eq_zero.1 this with h1 | h1
+      · exact absurd h1 (ne_of_gt ht)
+      · exact hw (by linarith)
+    have hexp' : Real.exp (tau * (w + l)) * (1 + (tau' * (w' + l) - tau * (w + l))) < Real.exp (tau' * (w' + l)) := by
+      have h := Real.add_one_lt_exp hd
+      rw [hsplit]; exact mul_lt_mul_of_pos_left (by linarith) hpos
+    nlinarith [hlog, hexp']
+  · -- the logarithm inequality is strict
+    have hlog' : Real.log tau' < Real.log tau + (tau' - tau) / tau := by
+      have hr : tau' / tau ≠ 1 := by
+        intro h1; apply hτ; field_simp at h1; linarith
+      have h := Real.log_lt_sub_one_of_pos (div_pos ht' ht) hr
+      rw [Real.log_div (ne_of_gt ht') (ne_of_gt ht)] at h
+      have : tau' / tau - 1 = (tau' - tau) / tau := by field_simp
+      linarith
+    nlinarith [hlog', hexp]
+
+theorem list_sum_lt_of_forall {β : Type} (l : List β) (hl : l ≠ []) (F G : β → ℝ) (h : ∀ b ∈ l, F b < G b) : (l.map F).sum < (l.map G).sum := by
+  induction l with
+  | nil => exact absurd rfl hl
+  | cons a t ih =>
+    simp only [List.map_cons, List.sum_cons]
+    by_cases ht : t = []
+    · subst ht; simpa using h a List.mem_cons_self
+    · exact add_lt_add (h a List.mem_cons_self) (ih ht (fun b hb => h b (List.mem_cons_of_mem _ hb)))
+
+/-- **the Weibull maximiser is unique**: with at least one sample above `mu`, a stationary point beats EVERY other admissible point strictly -/
+theorem llWei_stationary_unique (ls : List ℝ) (hls : ls ≠ []) (w tau : ℝ) (ht : 0 < tau) (hw : llWeiDw ls w tau = 0) (hτ : llWeiDtau ls w tau = 0)
+    (w' tau' : ℝ) (ht' : 0 < tau') (hne : tau' ≠ tau ∨ w' ≠ w) : llWei ls w' tau' < llWei ls w tau := by
+  obtain ⟨e1, e2⟩ := llWei_slopes ls w tau
+  have hG : llWeiGtheta ls w tau = 0 := by
+    rw [hw] at e1; rcases mul_eq_zero.1 e1.symm with h | h
+    · exact absurd h (ne_of_gt ht)
+    · exact h
+  have hT : llWeiGtau ls w tau = 0 := by rw [hτ, hG] at e2; linarith
+  have hlt : llWei ls w' tau' < llWei ls w tau + llWeiGtau ls w tau * (tau' - tau) + llWeiGtheta ls w tau * (tau' * w' - tau * w) := by
+    unfold llWei llWeiGtau llWeiGtheta
+    rw [← list_sum_affine]
+    exact list_sum_lt_of_forall ls hls _ _ (fun l _ => weiTerm_below_tangent_strict w tau l w' tau' ht ht' hne)
+  rw [hG, hT] at hlt
+  simpa using hlt
+
 /-! ## `wei_func` over ℝ is `-llWei` -/
 
 /-- `esl_wei_logpdf(x, mu, exp w, τ)` for `x > mu` -/
